@@ -11,6 +11,7 @@ from __future__ import annotations
 
 import itertools as itt
 import json
+import os
 import random
 from fractions import Fraction as Fr
 
@@ -19,19 +20,26 @@ from .. import enc_expr as X
 from .. import gen_expr as GE
 
 PROP = "C13"
-RULE = ("pairs of generated expressions (C10 generator: depth<=4, all constructors, raw objects) through * and / (all "
-        "7x7 class pairs are reached); expressions x random variable sets (plain, starred and counterfactual variables as "
-        "range arguments) through marginalize / conditional / normalize_marginalize; raw Fraction and Sum objects through "
-        "simplify (fractions of products sharing factors, sums covering / overlapping / missing the children); joint and "
-        "conditional leaves (plain, interventional, population-tagged; wild: repeated names, several worlds) through "
-        "chain_expand (reorder on/off, ordering None / covering / not covering), fraction_expand, bayes_expand; fractions "
-        "of joints (subset / equal / disjoint children, same or different populations) through contract and "
+RULE = ("(a) systematic head (harness/gen_expr.py): every operator overload pair (8 x 8 classes incl. One, Zero, QFactor; * and "
+        "/, >= 4 instances each over a common factor pool); Fraction.simplify on factor multisets with designed "
+        "multiplicities (a factor more often / less often / equally often in numerator and denominator, single factors vs "
+        "products, One over a fraction); Sum.simplify in every range mode (equal / superset / subset / partial / miss) x "
+        "{P, PP[pi1], PP[pi2]} incl. interventional and starred children; marginalize / conditional / "
+        "normalize_marginalize on structured expressions with ranges chosen relative to the expression (free, all free, "
+        "none, bound by an inner Sum, intervention subscripts, fresh; plain / starred / counterfactual variables as range "
+        "arguments); chain / fraction / bayes expansion of catalogue leaves (first-child ties, several worlds); "
+        "recursive_contract on products of contractible fractions and structured factors. (b) random: pairs of generated "
+        "expressions (C10 generator: depth<=4, all constructors, raw objects) through * and /; expressions x random variable "
+        "sets through marginalize / conditional / normalize_marginalize; raw Fraction and Sum objects through simplify; joint "
+        "and conditional leaves (plain, interventional, population-tagged; wild: repeated names, several worlds) through "
+        "chain_expand (reorder on/off, ordering None / covering / not covering), fraction_expand, bayes_expand; fractions of "
+        "joints (subset / equal / disjoint children, same or different populations) through contract and "
         "recursive_contract. A case is non-trivial when both operands have depth >= 2 (operators) or the helper really "
         "rewrites its input.")
 ASSUMPTIONS = [
     "every operator/helper theorem is about the model in Y0.Model.Dsl/Mutate; the tie to dsl.py/chain.py/contract.py is this run's correspondence check (sampling)",
     "theorems that cancel a division (fraction_simplify_den, chain_expand_den, contract_den, bayes/fraction_expand_den, sum_simplify_den) assume ProbFamily env and non-vanishing of the cancelled quantity (implied by Env.Positive on well-scoped leaves)",
-    "conditional: the specification normalises over the FREE EVENT variables of the expression; Probability.conditional meets it (conditional_den_probability); Expression.conditional also sums over bound Sum ranges (F11) and over intervention subscripts of non-Probability expressions: open findings keyed by verified mechanism; conditional_den states what the code computes, conditional_den_spec_partial the specification under the hypothesis that no such variable is collected (the full statement is visible as -- OPEN: conditional_den_spec in Props/C13.lean)",
+    "conditional: the specification normalises over the FREE EVENT variables of the expression; Probability.conditional meets it (conditional_den_probability); Expression.conditional also sums over bound Sum ranges (F11) and over intervention subscripts of non-Probability expressions: open findings keyed by verified mechanism; conditional_den states what the code computes, conditional_den_spec_partial the specification under the hypothesis that no such variable is collected, conditional_den_spec_observational the specification in full for expressions without Sum and without subscripts (the full statement is visible as -- OPEN: conditional_den_spec in Props/C13.lean). The defect is pinned by the last assertion of tests/test_algorithm/test_id_star.py::TestIDStar::test_idc_star and test_original_id_star.py::TestOriginalIDStar::test_idc_star (figure 9a: expected Sum[D,W](f) / Sum[D,W,Y](Sum[D,W](f)), compared through canonicalize with structural ==; the corrected code returns .../Sum[Y](Sum[D,W](f))): a fix that computes the free variables fails exactly these two tests (385/387)",
     "the oracle gives no opinion on conditional / bayes_expand when a `+X` value or an Intervention OBJECT occurs in event position (constants of the specification that get_base() / Probability.conditional treat differently)",
     "leaf-level helpers (chain/fraction/bayes expansion, contract, Sum.simplify) are proved for well-scoped leaves (pairwise distinct names, one world, intervened names disjoint from the leaf's variables); the oracle judges only those",
 ]
@@ -139,9 +147,84 @@ def _load_corpus():
     return [json.loads(f.read_text()) for f in files]
 
 
+def _pool(rng, nn, flavour=None):
+    """a factor pool that contains plain and population-tagged leaves"""
+    cat = GE.factor_catalogue(rng, nn, flavour or rng.choice(["mixed", "mixed", "samefirst"]))
+    pool = cat[:3]
+    if not any(x[0] == "P" for x in pool):
+        pool.append(next(x for x in cat if x[0] == "P"))
+    if not any(x[0] == "PP" for x in pool):
+        pool.append(next(x for x in cat if x[0] == "PP"))
+    return pool
+
+
+def structured_cases(rng: random.Random, scale: int = 1):
+    """systematic head of the stream: every operator overload pair (8 x 8 classes, * and /) over a common factor pool;
+    Fraction.simplify on factor multisets with designed multiplicities; Sum.simplify in every range mode x population;
+    marginalize / conditional / normalize_marginalize with ranges chosen relative to the expression (free, bound,
+    subscript, fresh names); chain / fraction / bayes expansion and contraction of catalogue leaves"""
+    out = []
+
+    def add(c):
+        c["seed"] = rng.randrange(1 << 30)
+        out.append(c)
+
+    for op in ("mul", "div"):
+        for ca in GE.EXPR_CLASSES:
+            for cb in GE.EXPR_CLASSES:
+                for _ in range(4 * scale):
+                    nn = rng.choice([3, 4, 4, 5])
+                    pool = _pool(rng, nn)
+                    add({"op": op, "a": GE.class_instance(rng, ca, pool, nn), "b": GE.class_instance(rng, cb, pool, nn),
+                         "gen": "pair"})
+    for _ in range(600 * scale):
+        e, lab = GE.struct_simplify_fraction(rng, rng.choice([3, 4, 4, 5]))
+        add({"op": "frac_simplify", "a": e, "gen": lab})
+    for mode in GE.SUM_MODES:
+        for pop in (False, GE.POPS[0], GE.POPS[1]):
+            for _ in range(40 * scale):
+                e, lab = GE.struct_sum_leaf(rng, rng.choice([3, 4, 4, 5]), mode=mode, pop=pop, wrap="none")
+                add({"op": "sum_simplify", "a": e, "gen": lab})
+    for op in ("marginalize", "conditional", "normalize_marginalize"):
+        for _ in range(300 * scale):
+            nn = rng.choice([3, 4, 4, 5])
+            if rng.random() < 0.6:
+                a, lab = GE.struct_expr(rng, nn)
+            else:
+                a = GE.class_instance(rng, rng.choice(["P", "PP", "prod", "sum", "frac"]), _pool(rng, nn), nn)
+                lab = "class"
+            r, mode = GE.struct_ranges(rng, a, nn)
+            add({"op": op, "a": a, "r": r, "gen": lab, "rmode": mode})
+    for _ in range(300 * scale):
+        nn = rng.choice([3, 4, 4, 5])
+        leaves = [x for x in GE.factor_catalogue(rng, nn, rng.choice(["mixed", "samefirst", "worlds"])) if x[0] in ("P", "PP")]
+        a = rng.choice(leaves)
+        op = rng.choice(["chain_expand", "chain_expand", "fraction_expand", "bayes_expand"])
+        c = {"op": op, "a": a, "gen": "leaf"}
+        if op == "chain_expand":
+            c["reorder"] = rng.random() < 0.7
+            o = rng.random()
+            c["ordering"] = None if o < 0.4 else GE.rand_ordering(rng, a, nn, covering=o < 0.9)
+        add(c)
+    for _ in range(200 * scale):
+        nn = rng.choice([3, 4, 4, 5])
+        inner = _contract_case(rng, nn)
+        e, _ = GE.struct_product(rng, nn)
+        add({"op": "recursive_contract", "a": ["prod", inner, e, _contract_case(rng, nn)], "gen": "contract"})
+    return out
+
+
 def cases(rng: random.Random, tier: str):
+    if os.environ.get("VERIF_EXPR_FAST_SEARCH") == "1":
+        tier = "quick"      # tools/mutate_expr.py only: keeps the runner's extended search at the size of the quick stream
     out = _load_corpus()
-    n = 12000 if tier == "quick" else 80000
+    out += structured_cases(rng, 1 if tier == "quick" else 4)
+    out += random_cases(rng, 6000 if tier == "quick" else 70000)
+    return out
+
+
+def random_cases(rng: random.Random, n: int):
+    out = []
     for _ in range(n):
         op = rng.choice(OPS)
         ws = rng.random() < 0.7
@@ -385,9 +468,9 @@ def run_python(case):
         names = set(GE.all_names(case["a"])) | (set(GE.all_names(case["b"])) if "b" in case else set())
         names |= {int(v[1]) for v in case.get("r", [])}
         names = sorted(vname(n) for n in names)
-        for _ in range(2):
-            seed = rng.randrange(1 << 30)
-            env = E.MixtureEnv(seed, {n: rng.randint(2, 3) for n in names})
+        for pk in rng.sample(range(E.N_SHARED), 2):
+            env = E.shared_env(pk)      # per-process pool of cached generic positive environments
+            seed = env.seed
             for _ in range(3):
                 sigma = E.random_valuation(rng, env, names)
                 sstar = E.random_valuation(rng, env, names)
@@ -399,19 +482,28 @@ def run_python(case):
                     fail = (f"{op}: result {res} evaluates to {got}, the operation on the arguments gives {want} "
                             f"(a={X.dec_expr(case['a'])}" + (f", b={X.dec_expr(case['b'])}" if "b" in case else "") +
                             (f", ranges={[str(X.dec_var(v)) for v in case['r']]}" if "r" in case else "") +
-                            f"; env_seed={seed} cards={env.cards} sigma={sigma} sigma_star={sstar})")
+                            f"; shared_env={pk} env_seed={seed} cards={ {n: env.card(n) for n in names} } sigma={sigma} sigma_star={sstar})")
         if op == "chain_expand" and fail is None and not _single_child(out[1]):
             fail = f"chain_expand produced a factor that is not a single-child conditional: {res}"
     nontrivial = out[0] == "ok" and ((op in ("mul", "div") and GE.depth(case["a"]) >= 2 and GE.depth(case["b"]) >= 2)
                                      or (op not in ("mul", "div", "markov") and out[1] != X.to_str_tree(case["a"])))
-    tags = {"op": op, "outcome": out[0], "judged": inq}
+    tags = {"op": op, "outcome": out[0], "judged": inq, "gen": case.get("gen", "random").split(":")[0]}
+    if op == "frac_simplify":
+        for f in GE.simplify_profile(case["a"]):
+            tags["simplify_" + f] = True
+    if op == "sum_simplify":
+        for f in GE.features(case["a"]):
+            if f.startswith("sum:"):
+                tags["hit_" + f] = True
+    if "rmode" in case:
+        tags["rmode"] = case["rmode"]
     mech = None
     if fail and op == "conditional" and res is not None:
         extra, kinds = conditional_extra(case)
         if extra and "other" not in kinds and _conditional_explained(case, res, E):
             mech = "conditional:extra=" + "+".join(kinds)
     if op in ("mul", "div"):
-        tags["pair"] = f"{_cls(case['a'])}x{_cls(case['b'])}"
+        tags["pair_" + op] = f"{_cls(case['a'])}x{_cls(case['b'])}"
     return {"out": out, "fail": fail, "nontrivial": nontrivial, "tags": tags, "mechanism": mech}
 
 
